@@ -71,6 +71,27 @@ def strip_lean_comments(src: str) -> str:
     return "".join(out)
 
 
+def extract_statements(src: str) -> dict:
+    """theorem name -> whitespace-normalised statement text (from `theorem name` up to the `:=` that starts the proof)."""
+    out = {}
+    ns: list[str] = []
+    for m in re.finditer(r"^(namespace|end|theorem)\s+(\S+)?", src, re.M):
+        kind, name = m.group(1), m.group(2)
+        if kind == "namespace" and name:
+            ns.append(name)
+        elif kind == "end":
+            if ns and name and name.split(".")[-1] == ns[-1].split(".")[-1]:
+                ns.pop()
+        elif kind == "theorem" and name:
+            rest = src[m.end():]
+            k = re.search(r":=\s*(by\b|\n|fun\b|⟨|[A-Za-z_(])", rest)
+            body = rest[: k.start()] if k else rest[:600]
+            out[name] = " ".join(body.split())
+            if ns:
+                out[ns[-1].split(".")[-1] + "." + name] = out[name]
+    return out
+
+
 def lean_str(s: str) -> str:
     """A Lean string literal for an arbitrary Python str (no lone surrogates)."""
     out = ['"']
@@ -289,6 +310,7 @@ class Check:
                 entry["status"] = "checked"
                 self.discharged += 1
             self.theorems[th] = entry
+        self._attach_statements(prop_module)
         self.cov["prove_s"] = round(time.time() - t0, 1)
         if not self.quick and ok:
             mods = [f"{LIB}.{m}" for m in modules]
@@ -299,6 +321,34 @@ class Check:
             if rc != 0:
                 self.broken.append({"kind": "proof", "what": "leanchecker rejected compiled modules", "errors": [out2[-400:]]})
         return ok and not any(b["kind"] == "proof" for b in self.broken)
+
+    def _attach_statements(self, prop_module: str) -> None:
+        """Record each property theorem's statement (text + hash) in the evidence and compare it with the committed
+        statement manifest lean/statements.json, so a silently weakened statement is visible."""
+        path = os.path.join(LEAN_DIR, LIB, *prop_module.split(".")) + ".lean"
+        try:
+            src = strip_lean_comments(open(path, encoding="utf-8").read())
+        except OSError:
+            return
+        stmts = extract_statements(src)
+        manifest = {}
+        mp = os.path.join(LEAN_DIR, "statements.json")
+        if os.path.exists(mp):
+            manifest = json.load(open(mp)).get(self.pid, {})
+        changed = []
+        for full, entry in self.theorems.items():
+            short = full.split(".")[-1]
+            st = stmts.get(short) or stmts.get(".".join(full.split(".")[-2:]))
+            if st is None:
+                continue
+            h = hashlib.sha256(st.encode()).hexdigest()[:16]
+            entry["statement"] = st[:400]
+            entry["statement_sha"] = h
+            if full in manifest and manifest[full] != h:
+                changed.append(full)
+        self.cov["statement_manifest"] = {"registered": len(manifest), "changed_since_manifest": changed}
+        if changed:
+            self.note("statements differ from lean/statements.json (update with python3 -m vf.statements): " + ", ".join(c.split(".")[-1] for c in changed[:6]))
 
     def driver(self, name: str, lines: list[str], timeout: int = 1200) -> list[str]:
         """Run lean/SqlglotModel/Driver/<name>.lean as a line-protocol filter."""
